@@ -29,9 +29,20 @@ try:
     rc, out, _ = run(["git", "apply", patch], wt); ok["applies"] = rc == 0
     if rc != 0: print(out); raise SystemExit("patch does not apply")
     rc, out, _ = run(["go", "build", "./..."], wt); ok["builds"] = rc == 0
-    rc, out, dt = run("go test -mod=mod -vet=off -count=1 -timeout 20m ./... 2>&1 | grep -v 'no test files'", wt)
-    ok["suite_passes_with_change"] = ("FAIL" not in out) and rc == 0
-    if not ok["suite_passes_with_change"]: print(out[-1500:])
+    import re
+    flaky = set(x.split("::")[-1] for x in json.load(open("/root/.vp/BASELINE.json")).get("flaky", []))
+    suite_ok = False
+    for attempt in range(3):
+        r = subprocess.run("go test -mod=mod -vet=off -count=1 -timeout 20m ./... 2>&1 | grep -v 'no test files'", cwd=wt, env=env, shell=True, capture_output=True, text=True, timeout=1500)
+        out = r.stdout + r.stderr
+        failed = set(re.findall(r"--- FAIL: (\S+)", out))
+        if "FAIL" not in out:
+            suite_ok = True; break
+        if failed and all(f.split("/")[0] in flaky for f in failed):
+            print("only baseline-flaky tests failed:", failed); suite_ok = True; break
+        print("suite attempt", attempt, "failed:", failed)
+    ok["suite_passes_with_change"] = suite_ok
+    if not suite_ok: print(out[-1500:])
     demo_dir = meta.get("demo_dir", "").strip("/")
     demos = [f for f in os.listdir(seed) if f.endswith(".go")]
     dst = []
